@@ -840,14 +840,18 @@ impl Ty {
                 8 => Some(i8::MAX as u64),
                 16 => Some(i16::MAX as u64),
                 32 => Some(i32::MAX as u64),
-                64 | 128 => Some(i64::MAX as u64),
+                // 255 (u8::MAX) is the bit width of isize
+                64 | 255 => Some(i64::MAX as u64),
+                // an integer literal is at most u64::MAX, which always fits in 128 bits
+                128 => Some(u64::MAX),
                 _ => None,
             },
             Ty::UInt(bit_width) => match bit_width {
                 8 => Some(u8::MAX as u64),
                 16 => Some(u16::MAX as u64),
                 32 => Some(u32::MAX as u64),
-                64 | 128 => Some(u64::MAX),
+                // 255 (u8::MAX) is the bit width of usize
+                64 | 128 | 255 => Some(u64::MAX),
                 _ => None,
             },
             Ty::Distinct { sub_ty: ty, .. } => ty.get_max_int_size(),
